@@ -9,3 +9,28 @@ package v1
 //@   trusted read-only lookup over a map of maps; used as a mathematical function of its arguments in contracts
 
 //@ pred noNilRelChildren(m) = forall g api.GroupVersionKind, k string :: has(m, g) && has(m[g], k) ==> m[g][k] != nil
+
+// groups (one per declared child resource) are created on demand and never disappear or become nil again
+//@ func RelativeObjectMap.InitGroup(m, gvk) ()
+//@   requires m != nil
+//@   writes [C17,C03] m, elems(m)
+//@   safety C13,C03
+//@   ensures [C03] has(m, api.GroupVersionKind{GroupVersionKind: gvk}) && m[api.GroupVersionKind{GroupVersionKind: gvk}] != nil
+//@   ensures [C17,C03] fresh(m[api.GroupVersionKind{GroupVersionKind: gvk}]) || (old(has(m, api.GroupVersionKind{GroupVersionKind: gvk})) && m[api.GroupVersionKind{GroupVersionKind: gvk}] == old(m[api.GroupVersionKind{GroupVersionKind: gvk}]))
+//@   ensures [C03] forall g api.GroupVersionKind :: old(has(m, g)) && old(m[g]) != nil ==> has(m, g) && m[g] == old(m[g])
+//@   ensures [C03] forall g api.GroupVersionKind :: g != api.GroupVersionKind{GroupVersionKind: gvk} ==> has(m, g) == old(has(m, g)) && m[g] == old(m[g])
+
+//@ func RelativeObjectMap.Insert(m, parent, obj) ()
+//@   requires m != nil && obj != nil && parent != nil && ref(parent) != nil
+//@   writes [C17,C03] m, elems(m)
+//@   safety C13,C03
+//@   ensures [C03] forall g api.GroupVersionKind :: old(has(m, g)) && old(m[g]) != nil ==> has(m, g) && m[g] == old(m[g])
+//@   ensures [C17,C03] forall g api.GroupVersionKind :: has(m, g) ==> m[g] == nil || fresh(m[g]) || (old(has(m, g)) && m[g] == old(m[g]))
+
+//@ func RelativeObjectMap.InsertAll(m, parent, objects) ()
+//@   requires m != nil && parent != nil && ref(parent) != nil
+//@   writes [C17,C03] m, elems(m)
+//@   safety C13,C03
+//@   invariant loop 1 [C03]: forall g api.GroupVersionKind :: old(has(m, g)) && old(m[g]) != nil ==> has(m, g) && m[g] == old(m[g])
+//@   invariant loop 1 [C17,C03]: forall g api.GroupVersionKind :: has(m, g) ==> m[g] == nil || fresh(m[g]) || (old(has(m, g)) && m[g] == old(m[g]))
+//@   ensures [C03] forall g api.GroupVersionKind :: old(has(m, g)) && old(m[g]) != nil ==> has(m, g) && m[g] == old(m[g])
